@@ -56,6 +56,49 @@ def run_one(name, spec, wdir):
     return res
 
 
+def run_matrix(sel, benign, pid, jobs=8):
+    """used by the thorough tier of ./check: mutants in `sel` must make property `pid` fire; benign edits must leave it silent"""
+    import queue
+    t0 = time.time()
+    base = tempfile.mkdtemp(prefix='gdslmut-')
+    out = {'killed': [], 'survived': [], 'not_applicable': [], 'benign_silent': [], 'benign_false_alarm': []}
+    try:
+        items = [(n, s, False) for n, s in sorted(sel.items())] + [(n, dict(s, expect=[[pid, '']]), True) for n, s in sorted(benign.items())]
+        jobs = max(1, min(jobs, len(items) or 1))
+        q = queue.Queue()
+        for i in range(jobs):
+            w = os.path.join(base, 'w%d' % i)
+            os.makedirs(os.path.join(w, 'work'))
+            src_t = os.path.join(os.environ.get('GDSL_WORK', os.path.join(VERIF, '.work')), 'target')
+            if os.path.isdir(src_t):
+                subprocess.run(['cp', '-r', src_t, os.path.join(w, 'work', 'target')], check=False)
+            q.put(w)
+
+        def go(it):
+            n, s, is_benign = it
+            w = q.get()
+            try:
+                s2 = dict(s)
+                s2.pop('benign', None)
+                return n, is_benign, run_one(n, s2, w)
+            finally:
+                q.put(w)
+        with ThreadPoolExecutor(max_workers=jobs) as ex:
+            for n, is_benign, r in ex.map(go, items):
+                if r['status'] in ('anchor-missing', 'does-not-compile'):
+                    out['not_applicable'].append({'name': n, 'why': r['status']})
+                elif is_benign:
+                    (out['benign_false_alarm'] if r['status'] == 'killed' else out['benign_silent']).append(n)
+                elif r['status'] == 'killed':
+                    out['killed'].append({'name': n, 'rules': r['fired'][0]['rules'] if r.get('fired') else []})
+                else:
+                    out['survived'].append({'name': n, 'detail': r.get('detail', '')})
+    finally:
+        shutil.rmtree(base, ignore_errors=True)
+    out['wall_s'] = round(time.time() - t0, 1)
+    return out
+
+
 def main():
     ap = argparse.ArgumentParser()
     ap.add_argument('--jobs', type=int, default=8)
